@@ -700,6 +700,9 @@ func trimDump(s string) string {
 	return s
 }
 
+// AtWorkerExit holds clean-up functions of helper packages (e.g. release of a claimed port window).
+var AtWorkerExit []func()
+
 // WorkerMain is the child side.
 func WorkerMain(caseFile, resFile string) int {
 	data, err := os.ReadFile(caseFile)
@@ -724,6 +727,9 @@ func WorkerMain(caseFile, resFile string) int {
 		defer os.RemoveAll(env.Dir)
 	}
 	res := p.RunCase(c, env)
+	for _, f := range AtWorkerExit {
+		f()
+	}
 	out, err := json.Marshal(res)
 	if err != nil {
 		fmt.Fprintln(os.Stderr, "cannot marshal result:", err)
